@@ -20,18 +20,36 @@ bounds/step, IF on a passive condition.
   `1`/`-1`), `-step` built by `negate_expr`;
 * IF: same condition, both bodies processed as schedules.
 
-FIX MODE for two defects of the pinned tree (patches `fixes/C19-assignment-increment-sign.patch`,
+The model follows the FIXED code for two defects this check found in the pinned tree (now
+committed in /repo; patches kept as `fixes/C19-assignment-increment-sign.patch`,
 `fixes/C19-loop-offset-parenthesise-start.patch`): the sign of the *first* deferred increment
-term is kept (the pinned code drops it: `z = a - z` has the adjoint `a = a + z` and nothing
-else), and the offset is `MOD(hi - (lo), step)` as a tree (the pinned code pastes the text
-`hi-lo` without parentheses).  `adjointPinned…` keeps the pinned behaviour of the first defect
+term is kept (the pinned code dropped it: `z = a - z` had the adjoint `a = a + z` and nothing
+else), and the offset is `MOD(hi - (lo), step)` as a tree (the pinned code pasted the text
+`hi-lo` without parentheses).  `adjAssignPinned` keeps the pinned behaviour of the first defect
 for the witness theorem.  Two further defect classes are *modelled as they are* (no local
 fix keeps the test-suite's expected strings): the zero-trip case of the offset rule and
 run-time aliasing that `SymbolicMaths.equal` cannot see; `safe` excludes exactly those.
 
-The passive store is read-only: loop variables are bound per iteration (scoped), there are
-no assignments to passive variables in this model (PSyAD hoists passive statements to the
-front of their schedule; that is checked on the real code only).  Core Lean only. -/
+Two semantics.  `sem p ρ a` keeps the passive store `ρ` read-only (loop variables are bound
+per iteration, passive assignments are no-ops): it is the mathematical reading used by the
+transpose theorem.  `run p ρ a` is the Fortran reading (same conventions as `MiniF.exec`): passive
+assignments update `ρ`, a DO variable keeps `lo + trip·step` after its loop.  The two agree
+on programs without passive assignments whose loop variables are only read inside their loops.
+
+`adjoint` models `schedule_node` faithfully: a right-nested `seq` tree is one schedule; its
+*passive* children (no active variable anywhere: passive assignments, and IFs/loops made of
+them) are kept, in order, in FRONT of the reversed adjoints of the active children (`pas`,
+`act`).  With passive assignments interleaved with active statements this hoisting is not
+semantics-preserving (known findings, witnesses in Props).
+
+Array notation: `sec ev cnt lhs ts` is an assignment to an array section that stayed in array
+notation after preprocessing.  The exporter introduces an element counter `ev` (0-based,
+`cnt` elements) and writes every section subscript `lo:hi:st` as `lo + ev*st`, so `lhs`/`ts` are
+the *element* statement; the semantics evaluates every right-hand side in the initial state
+before any element is stored (Fortran array assignment).  `AssignmentTrans` in array notation
+treats every RHS reference to the LHS *array* as an increment, which is only right because
+`_array_ranges_match` accepts such a reference only with identical subscripts (`secOK`).
+Core Lean only. -/
 namespace C19
 open MiniF
 
@@ -57,6 +75,10 @@ inductive Stmt where
   | assign (lhs : ARef) (terms : List Term)
   | ite (c : Expr) (t f : Stmt)
   | loop (v : Nat) (lo hi step : Expr) (body : Stmt)
+  /-- assignment to a passive scalar -/
+  | passign (x : Nat) (e : Expr)
+  /-- array-section assignment: element counter `ev`, element count `cnt`, element statement `lhs = Σ ts` -/
+  | sec (ev : Nat) (cnt : Expr) (lhs : ARef) (terms : List Term)
   deriving DecidableEq, Repr, Inhabited
 
 /-! ## Semantics -/
@@ -80,8 +102,16 @@ def iterVals (lo step : Int) : Nat → List Int
 /-- Fortran DO loop: bounds and step evaluated once, trip count `MiniF.trip` -/
 def iters (lo hi step : Int) : List Int := iterVals lo step (trip lo hi step)
 
+/-- element numbers `0 … n-1` of a section with `n` elements -/
+def secIdx (n : Int) : List Int := iterVals 0 1 n.toNat
+
+/-- Fortran array assignment: all right-hand sides are evaluated in the state `a` before the stores -/
+def secSem (ev : Nat) (cnt : Expr) (l : ARef) (ts : List Term) (ρ a : Store) : Store :=
+  (secIdx (eval cnt ρ)).foldl
+    (fun acc e => acc.set (l.loc (ρ.set (ev, 0, 0) e)) (rhsVal ts (ρ.set (ev, 0, 0) e) a)) a
+
 /-- `sem p ρ a`: the active state after running `p` from active state `a`; `ρ` is the passive
-store (read-only; the loop variable is bound for the body). -/
+store (read-only; the loop variable is bound for the body; passive assignments do nothing). -/
 def sem : Stmt → Store → Store → Store
   | .skip, _, a => a
   | .seq p q, ρ, a => sem q ρ (sem p ρ a)
@@ -89,6 +119,22 @@ def sem : Stmt → Store → Store → Store
   | .ite c t f, ρ, a => if eval c ρ ≠ 0 then sem t ρ a else sem f ρ a
   | .loop v lo hi st b, ρ, a =>
       (iters (eval lo ρ) (eval hi ρ) (eval st ρ)).foldl (fun a i => sem b (ρ.set (v, 0, 0) i) a) a
+  | .passign _ _, _, a => a
+  | .sec ev cnt l ts, ρ, a => secSem ev cnt l ts ρ a
+
+/-- `run p ρ a`: the Fortran reading.  Passive assignments update the passive store, a DO
+variable is set at the start of every iteration and holds `lo + trip·step` after the loop. -/
+def run : Stmt → Store → Store → Store × Store
+  | .skip, ρ, a => (ρ, a)
+  | .seq p q, ρ, a => run q (run p ρ a).1 (run p ρ a).2
+  | .assign l ts, ρ, a => (ρ, a.set (l.loc ρ) (rhsVal ts ρ a))
+  | .ite c t f, ρ, a => if eval c ρ ≠ 0 then run t ρ a else run f ρ a
+  | .loop v lo hi st b, ρ, a =>
+      let r := (iters (eval lo ρ) (eval hi ρ) (eval st ρ)).foldl
+        (fun s i => run b (s.1.set (v, 0, 0) i) s.2) (ρ, a)
+      (r.1.set (v, 0, 0) (eval lo ρ + (trip (eval lo ρ) (eval hi ρ) (eval st ρ) : Int) * eval st ρ), r.2)
+  | .passign x e, ρ, a => (ρ.set (x, 0, 0) (eval e ρ), a)
+  | .sec ev cnt l ts, ρ, a => (ρ, secSem ev cnt l ts ρ a)
 
 /-! ## The adjoint construction -/
 
@@ -153,20 +199,58 @@ def adjTailPinned (lhs : ARef) (incs : List Term) : List Stmt :=
 def adjAssignPinned (lhs : ARef) (ts : List Term) : List Stmt :=
   (ts.filter (fun t => !isInc lhs t)).map (adjTerm lhs) ++ adjTailPinned lhs (ts.filter (isInc lhs))
 
-/-- `AdjointVisitor` on the active part of a schedule -/
-def adjoint : Stmt → Stmt
-  | .skip => .skip
-  | .seq a b => .seq (adjoint b) (adjoint a)
-  | .assign l ts => seqs (adjAssign l ts)
-  | .ite c t f => .ite c (adjoint t) (adjoint f)
-  | .loop v lo hi st b => .loop v (revStart lo hi st) lo (negate st) (adjoint b)
+/-- array notation: `apply` decides "increment" by the SYMBOL only (`node.lhs.symbol is ref.symbol`) -/
+def isIncS (lhs : ARef) (t : Term) : Bool := t.ref.arr == lhs.arr
 
-def adjointPinned : Stmt → Stmt
+/-- `_array_ranges_match`: a RHS reference to the LHS array is accepted only with identical subscripts -/
+def secOK (lhs : ARef) (ts : List Term) : Bool := ts.all fun t => !(t.ref.arr == lhs.arr) || t.ref == lhs
+
+def adjSecTerm (ev : Nat) (cnt : Expr) (lhs : ARef) (t : Term) : Stmt :=
+  .sec ev cnt t.ref [⟨false, .lit 1, t.ref⟩, ⟨t.neg, t.coef, lhs⟩]
+
+def adjSecTail (ev : Nat) (cnt : Expr) (lhs : ARef) (incs : List Term) : List Stmt :=
+  match incs with
+  | [] => [.sec ev cnt lhs []]
+  | [t] => if isBareRef t && !t.neg then [] else [.sec ev cnt lhs (deferredTerms lhs incs)]
+  | _ => [.sec ev cnt lhs (deferredTerms lhs incs)]
+
+/-- `AssignmentTrans.apply` on an assignment that is in array notation -/
+def adjSec (ev : Nat) (cnt : Expr) (lhs : ARef) (ts : List Term) : List Stmt :=
+  (ts.filter (fun t => !isIncS lhs t)).map (adjSecTerm ev cnt lhs) ++ adjSecTail ev cnt lhs (ts.filter (isIncS lhs))
+
+/-- `node_is_passive`: no active variable anywhere in the statement -/
+def isPassive : Stmt → Bool
+  | .skip => true
+  | .seq a b => isPassive a && isPassive b
+  | .assign _ _ => false
+  | .ite _ t f => isPassive t && isPassive f
+  | .loop _ _ _ _ b => isPassive b
+  | .passign _ _ => true
+  | .sec _ _ _ _ => false
+
+/-- the passive children of a schedule (a `seq` tree), in order: `schedule_node` copies them first -/
+def pas : Stmt → Stmt
   | .skip => .skip
-  | .seq a b => .seq (adjointPinned b) (adjointPinned a)
-  | .assign l ts => seqs (adjAssignPinned l ts)
-  | .ite c t f => .ite c (adjointPinned t) (adjointPinned f)
-  | .loop v lo hi st b => .loop v (revStart lo hi st) lo (negate st) (adjointPinned b)
+  | .seq a b => .seq (pas a) (pas b)
+  | s => if isPassive s then s else .skip
+
+/-- the adjoints of the active children of a schedule, in reversed order; IF and loop bodies are
+schedules of their own -/
+def act : Stmt → Stmt
+  | .skip => .skip
+  | .seq a b => .seq (act b) (act a)
+  | .assign l ts => seqs (adjAssign l ts)
+  | .sec ev cnt l ts => seqs (adjSec ev cnt l ts)
+  | .passign _ _ => .skip
+  | .ite c t f =>
+      if isPassive t && isPassive f then .skip
+      else .ite c (.seq (pas t) (act t)) (.seq (pas f) (act f))
+  | .loop v lo hi st b =>
+      if isPassive b then .skip
+      else .loop v (revStart lo hi st) lo (negate st) (.seq (pas b) (act b))
+
+/-- `AdjointVisitor.schedule_node`: passive children first, then the reversed adjoints -/
+def adjoint (p : Stmt) : Stmt := .seq (pas p) (act p)
 
 /-- `schedule_node` on a Routine: local active scalars are zeroed first -/
 def adjointRoutine (locals : List Nat) (p : Stmt) : Stmt :=
@@ -184,8 +268,19 @@ def spurious (lo hi s : Int) : Bool :=
 def noHiddenAlias (lhs : ARef) (ts : List Term) (ρ : Store) : Bool :=
   ts.all fun t => t.ref == lhs || decide (t.ref.loc ρ ≠ lhs.loc ρ)
 
+/-- the locations of a reference for the elements of a section -/
+def secLocs (ev : Nat) (cnt : Expr) (r : ARef) (ρ : Store) : List Loc :=
+  (secIdx (eval cnt ρ)).map fun e => r.loc (ρ.set (ev, 0, 0) e)
+
+/-- a section statement is conformable: the LHS and every RHS reference address pairwise distinct
+elements (a scalar on the RHS of an array assignment, for which PSyAD emits the invalid
+`s = s + c*x(:)`, is excluded) -/
+def secInj (ev : Nat) (cnt : Expr) (l : ARef) (ts : List Term) (ρ : Store) : Bool :=
+  decide (secLocs ev cnt l ρ).Nodup && ts.all fun t => decide (secLocs ev cnt t.ref ρ).Nodup
+
 /-- `safe p ρ`: executing `p` under `ρ` never meets a hidden alias nor a loop whose reversed
-bounds are spurious (unit literal steps never are). -/
+bounds are spurious (unit literal steps never are); section statements satisfy the acceptance
+rule of `_array_ranges_match` and are conformable. -/
 def safe : Stmt → Store → Bool
   | .skip, _ => true
   | .seq a b, ρ => safe a ρ && safe b ρ
@@ -194,6 +289,8 @@ def safe : Stmt → Store → Bool
   | .loop v lo hi st b, ρ =>
       (isUnitLit st || !spurious (eval lo ρ) (eval hi ρ) (eval st ρ)) &&
       (iters (eval lo ρ) (eval hi ρ) (eval st ρ)).all fun i => safe b (ρ.set (v, 0, 0) i)
+  | .passign _ _, _ => true
+  | .sec ev cnt l ts, ρ => secOK l ts && secInj ev cnt l ts ρ
 
 /-- the active locations `p` reads or writes under `ρ` -/
 def touched : Stmt → Store → List Loc
@@ -203,6 +300,10 @@ def touched : Stmt → Store → List Loc
   | .ite c t f, ρ => if eval c ρ ≠ 0 then touched t ρ else touched f ρ
   | .loop v lo hi st b, ρ =>
       (iters (eval lo ρ) (eval hi ρ) (eval st ρ)).flatMap fun i => touched b (ρ.set (v, 0, 0) i)
+  | .passign _ _, _ => []
+  | .sec ev cnt l ts, ρ =>
+      (secIdx (eval cnt ρ)).flatMap fun e =>
+        l.loc (ρ.set (ev, 0, 0) e) :: ts.map (fun t => t.ref.loc (ρ.set (ev, 0, 0) e))
 
 /-- arrays (ids) assigned by a program, and the loop variables it binds -/
 def lhsArrs : Stmt → List Nat
@@ -211,6 +312,8 @@ def lhsArrs : Stmt → List Nat
   | .assign l _ => [l.arr]
   | .ite _ t f => lhsArrs t ++ lhsArrs f
   | .loop _ _ _ _ b => lhsArrs b
+  | .passign _ _ => []
+  | .sec _ _ l _ => [l.arr]
 
 def activeArrs : Stmt → List Nat
   | .skip => []
@@ -218,6 +321,8 @@ def activeArrs : Stmt → List Nat
   | .assign l ts => l.arr :: ts.map (fun t => t.ref.arr)
   | .ite _ t f => activeArrs t ++ activeArrs f
   | .loop _ _ _ _ b => activeArrs b
+  | .passign _ _ => []
+  | .sec _ _ l ts => l.arr :: ts.map (fun t => t.ref.arr)
 
 def loopVars : Stmt → List Nat
   | .skip => []
@@ -225,6 +330,109 @@ def loopVars : Stmt → List Nat
   | .assign _ _ => []
   | .ite _ t f => loopVars t ++ loopVars f
   | .loop v _ _ _ b => v :: loopVars b
+  | .passign _ _ => []
+  | .sec _ _ _ _ => []
+
+/-- passive scalars assigned by a program -/
+def passiveAssigned : Stmt → List Nat
+  | .skip => []
+  | .seq a b => passiveAssigned a ++ passiveAssigned b
+  | .assign _ _ => []
+  | .ite _ t f => passiveAssigned t ++ passiveAssigned f
+  | .loop _ _ _ _ b => passiveAssigned b
+  | .passign x _ => [x]
+  | .sec _ _ _ _ => []
+
+/-! ## Acceptance: what PSyAD refuses inside this statement language -/
+
+/-- variables (scalars and arrays) an expression reads -/
+def exprVars : Expr → List Nat
+  | .lit _ => []
+  | .var x => [x]
+  | .idx1 a i => a :: exprVars i
+  | .idx2 a i j => a :: (exprVars i ++ exprVars j)
+  | .un _ e => exprVars e
+  | .bin _ a b => exprVars a ++ exprVars b
+
+/-- an expression in a passive position mentions no active variable -/
+def passiveExpr (A : List Nat) (e : Expr) : Bool := (exprVars e).all fun x => !A.contains x
+
+def refOK (A : List Nat) (r : ARef) : Bool := A.contains r.arr && passiveExpr A r.i && passiveExpr A r.j
+
+/-- a term is linear: one active reference times a passive coefficient -/
+def termOK (A : List Nat) (t : Term) : Bool := refOK A t.ref && passiveExpr A t.coef
+
+/-- `Accepted A p`: with active variables `A`, PSyAD does not refuse `p`.  Refusals mirrored:
+a second active variable in a term (non-linear, `TangentLinearError`), active variables in
+subscripts, loop bounds/steps, the loop variable or an IF condition (`VisitorError`), a passive
+LHS with an active RHS (`TangentLinearError`), and in array notation a RHS reference to the LHS
+array whose subscripts differ from the LHS (`_array_ranges_match`, `NotImplementedError`). -/
+def Accepted (A : List Nat) : Stmt → Bool
+  | .skip => true
+  | .seq a b => Accepted A a && Accepted A b
+  | .assign l ts => refOK A l && ts.all (termOK A)
+  | .ite c t f => passiveExpr A c && Accepted A t && Accepted A f
+  | .loop v lo hi st b =>
+      !A.contains v && passiveExpr A lo && passiveExpr A hi && passiveExpr A st && Accepted A b
+  | .passign x e => !A.contains x && passiveExpr A e
+  | .sec ev cnt l ts =>
+      !A.contains ev && passiveExpr A cnt && refOK A l && ts.all (termOK A) && secOK l ts
+
+/-- subscript of the exporter's shape `lo + ev*st` with a non-zero literal stride and `lo` free of `ev` -/
+def affineIn (ev : Nat) : Expr → Bool
+  | .bin .add lo (.bin .mul (.var x) (.lit st)) => x == ev && st != 0 && !(exprVars lo).contains ev
+  | _ => false
+
+/-- a reference that provably addresses distinct elements for distinct element numbers -/
+def refInjStatic (ev : Nat) (r : ARef) : Bool := affineIn ev r.i || affineIn ev r.j
+
+/-- syntactic exclusion of the known-finding classes: literal unit steps; the LHS array appears
+on a RHS only through the LHS reference itself; section references are affine in the counter -/
+def staticallySafe : Stmt → Bool
+  | .skip => true
+  | .seq a b => staticallySafe a && staticallySafe b
+  | .assign l ts => ts.all fun t => t.ref == l || t.ref.arr != l.arr
+  | .ite _ t f => staticallySafe t && staticallySafe f
+  | .loop _ _ _ st b => isUnitLit st && staticallySafe b
+  | .passign _ _ => true
+  | .sec ev _ l ts => secOK l ts && refInjStatic ev l && ts.all fun t => refInjStatic ev t.ref
+
+/-- no assignment to a passive variable -/
+def pureAD : Stmt → Bool
+  | .skip => true
+  | .seq a b => pureAD a && pureAD b
+  | .assign _ _ => true
+  | .ite _ t f => pureAD t && pureAD f
+  | .loop _ _ _ _ b => pureAD b
+  | .passign _ _ => false
+  | .sec _ _ _ _ => true
+
+/-! ## Scoping of loop variables (when the two readings `sem` and `run` coincide) -/
+
+/-- the expression reads a loop variable of `LV` only while it is bound -/
+def exprScoped (LV bound : List Nat) (e : Expr) : Bool :=
+  (exprVars e).all fun x => !LV.contains x || bound.contains x
+
+def refScoped (LV bound : List Nat) (r : ARef) : Bool := exprScoped LV bound r.i && exprScoped LV bound r.j
+
+def termScoped (LV bound : List Nat) (t : Term) : Bool := refScoped LV bound t.ref && exprScoped LV bound t.coef
+
+/-- every read of a variable of `LV` happens inside a loop that binds it; a loop does not
+re-bind a variable that is already bound; section counters are not loop variables -/
+def scopedIn (LV : List Nat) : List Nat → Stmt → Bool
+  | _, .skip => true
+  | bound, .seq a b => scopedIn LV bound a && scopedIn LV bound b
+  | bound, .assign l ts => refScoped LV bound l && ts.all (termScoped LV bound)
+  | bound, .ite c t f => exprScoped LV bound c && scopedIn LV bound t && scopedIn LV bound f
+  | bound, .loop v lo hi st b =>
+      LV.contains v && !bound.contains v && exprScoped LV bound lo && exprScoped LV bound hi &&
+        exprScoped LV bound st && scopedIn LV (v :: bound) b
+  | bound, .passign _ e => exprScoped LV bound e
+  | bound, .sec ev cnt l ts =>
+      !LV.contains ev && exprScoped LV bound cnt && refScoped LV bound l && ts.all (termScoped LV bound)
+
+/-- loop variables are only read inside their loops -/
+def wellScoped (p : Stmt) : Bool := scopedIn (loopVars p) [] p
 
 /-- flattening used for the canonical printed form -/
 def flat : Stmt → List Stmt
